@@ -387,3 +387,68 @@ Example C13_lu_factor_recorded :
   | None => false
   end = true.
 Proof. vm_compute. reflexivity. Qed.
+
+(* ---- (e) the sparse solve variants (ILLfactor_ftranl3, _btranl3, _ftranu3, _btranu3) -----------------------------------
+   They handle only the nodes reachable from the non-zeros of the right-hand side, depth first, a node when all its reachable
+   predecessors are done.  Fac/TopoOrder.v: any evaluation order that respects the dependency order of the triangular factor
+   ([tri] for the eta passes, [triP] for the U passes) and whose skipped nodes are inert (zero input, not written to by a
+   handled node) gives the vector of the dense loop, so the sparse variants are covered by check_repr_sound /
+   lu_factor_represents / update_preserves modulo "the C code visits such an order".  Run-time check of that premise where it
+   is observable: the order in which mpq_ILLfactor_ftran lists its result is the order in which ftranu / ftranu3 handled the
+   columns with a non-zero value; checks/C13.py runs the extracted [listed_order_ok] on it against the dumped U. *)
+From QSX Require Import Fac.TopoOrder.
+
+Theorem C13_ftranl_order_irrelevant :
+  forall n M lc1 lc2 x,
+    tri M (map fst lc1) -> NoDup (map fst lc1) -> colform n M lc1 ->
+    tri M (map fst lc2) -> NoDup (map fst lc2) -> colform n M lc2 ->
+    incl (map fst lc2) (map fst lc1) ->
+    (forall b, In b (map fst lc1) -> ~ In b (map fst lc2) ->
+       qnth x b == 0 /\ forall b', In b' (map fst lc2) -> M b b' == 0) ->
+    forall i, (i < n)%nat -> qnth (fold_left (axpy_step n) lc2 x) i == qnth (fold_left (axpy_step n) lc1 x) i.
+Proof. exact ftranl_order_irrelevant. Qed.
+Print Assumptions C13_ftranl_order_irrelevant.
+
+Theorem C13_btranl_order_irrelevant :
+  forall n M lr1 lr2 y,
+    tri M (map fst lr1) -> NoDup (map fst lr1) -> rowform n M lr1 ->
+    tri M (map fst lr2) -> NoDup (map fst lr2) -> rowform n M lr2 ->
+    incl (map fst lr2) (map fst lr1) ->
+    (forall a, In a (map fst lr1) -> ~ In a (map fst lr2) ->
+       qnth y a == 0 /\ forall a', In a' (map fst lr2) -> M a' a == 0) ->
+    forall i, (i < n)%nat -> qnth (fold_left (axpy_step n) (rev lr2) y) i == qnth (fold_left (axpy_step n) (rev lr1) y) i.
+Proof. exact btranl_order_irrelevant. Qed.
+Print Assumptions C13_btranl_order_irrelevant.
+
+Theorem C13_ftranu_order_irrelevant :
+  forall r pjs v, struct_ok r = true -> triP (f_uc r) [] pjs ->
+    (forall pj, In pj pjs -> (fst pj < f_dim r)%nat /\ (snd pj < f_dim r)%nat) ->
+    (forall i, (i < f_dim r)%nat -> ~ In i (map fst pjs) -> qnth v i == 0 /\ forall pj, In pj pjs -> Ucf r i (snd pj) == 0) ->
+    forall j, (j < f_dim r)%nat ->
+      qnth (dense (f_dim r) (snd (fold_left (u_step (f_dim r) (f_uc r)) pjs (v, [])))) j == qnth (usolve r v) j.
+Proof. exact ftranu_order_irrelevant. Qed.
+Print Assumptions C13_ftranu_order_irrelevant.
+
+Theorem C13_btranu_order_irrelevant :
+  forall r pjs c, struct_ok r = true -> triP (f_ur r) [] pjs ->
+    (forall pj, In pj pjs -> (fst pj < f_dim r)%nat /\ (snd pj < f_dim r)%nat) ->
+    (forall j, (j < f_dim r)%nat -> ~ In j (map fst pjs) -> qnth c j == 0 /\ forall pj, In pj pjs -> Urf r (snd pj) j == 0) ->
+    forall i, (i < f_dim r)%nat ->
+      qnth (dense (f_dim r) (snd (fold_left (u_step (f_dim r) (f_ur r)) pjs (c, [])))) i == qnth (usolve_t r c) i.
+Proof. exact btranu_order_irrelevant. Qed.
+Print Assumptions C13_btranu_order_irrelevant.
+
+(* the executable premise check decides [triP] for the listed order *)
+Theorem C13_listed_order_ok_spec :
+  forall cols order, listed_order_ok cols order = true <-> triP cols [] (listed_pjs cols order).
+Proof. exact listed_order_ok_spec. Qed.
+Print Assumptions C13_listed_order_ok_spec.
+
+(* satisfiable: on the recorded factor the right-hand side e_2 reaches column 2 only; handling just that column gives the
+   result of the full loop; the rank order (columns 0, 1, 2 by decreasing rank) passes the check, its reverse does not *)
+Example C13_topo_example :
+  listed_order_ok (f_uc ex_lu_dump) [2%nat] = true /\
+  veqb 3 (dense 3 (snd (fold_left (u_step 3 (f_uc ex_lu_dump)) [(2, 2)%nat] ([0; 0; 1], [])))) (usolve ex_lu_dump [0; 0; 1]) = true /\
+  listed_order_ok (f_uc ex_lu_dump) [0; 1; 2]%nat = true /\
+  listed_order_ok (f_uc ex_lu_dump) [2; 1; 0]%nat = false.
+Proof. vm_compute. repeat split. Qed.
